@@ -28,6 +28,9 @@ def expectations(patch):
             m = re.match(r'^#\s*expects:\s*(C\d+)\s*(.*)$', line.strip())
             if m:
                 out.append((m.group(1), m.group(2).strip()))
+            m = re.match(r'^#\s*silent:\s*(C\d+)', line.strip())
+            if m:
+                out.append((m.group(1), None))    # behaviour-preserving edit: the check must stay silent
     return out
 
 
@@ -57,6 +60,10 @@ def run_one(patch, tier):
                                cwd=VERIF, env=env, stdout=subprocess.PIPE, stderr=subprocess.STDOUT,
                                text=True)
             out = q.stdout
+            if text is None:
+                ok = q.returncode == 0 and 'VIOLATION' not in out
+                res.append((pid, ok, 'exit=%d (expected silence) %s' % (q.returncode, '' if ok else out[-600:])))
+                continue
             hit = q.returncode == 1 and 'VIOLATION property=%s' % pid in out
             if hit and text:
                 hit = all(t.strip() in out for t in text.split('&&'))
@@ -81,7 +88,7 @@ def main():
     with ThreadPoolExecutor(max_workers=a.jobs) as ex:
         for patch, res in ex.map(lambda p: run_one(p, a.tier), patches):
             for pid, ok, msg in res:
-                print('%-6s %-4s %s %s' % ('CAUGHT' if ok else 'MISSED', pid,
+                print('%-6s %-4s %s %s' % (('CAUGHT' if ok else 'MISSED') if 'expected silence' not in msg else ('SILENT' if ok else 'NOISY'), pid,
                                            os.path.relpath(patch, VERIF), '' if ok else msg))
                 if not ok:
                     bad += 1
